@@ -8,7 +8,9 @@ from .. import shared
 from ..mutate import Mutant, in_func, delete_stmt, in_module
 from ..report import AnalysisError
 from ..srcmodel import unparse, norm, walk_no_nested, calls_in
-from .common import cfg_of, is_method_call, get_kw, facts_at, find_stmt_node, name_defs, derives_from
+from .common import cfg_of, is_method_call, get_kw, facts_at, find_stmt_node, name_defs, derives_from, only_reached_from, parent_chain
+from . import tr
+from ..tracer import Tracer
 
 PROP = 'C12'
 DECIDED = [
@@ -40,7 +42,13 @@ def r1(repo, run):
         elif w.kind.startswith('maybe-'):
             run.info('C12.R1', where, w.text(), 'write through a name that may alias %s (the cached namespace); part of the persistent-namespace finding' % w.root[1])
         else:
-            run.violation('C12.R1', w.fi, w.text(), 'evaluation code stores per-build state in process-global state (%s %s): a later build in the same process sees objects (context, config, symbols) of an earlier one' % w.root, node=w.node)
+            # the finding is attributed to the public function the write belongs to (a private helper reached only from it
+            # is part of it) and named after the shared root, not after local variable names
+            owner = top.qualname
+            for cand in ('EvalNode.ayns.on_evaluate_impl', 'FStrNode.ayns.on_evaluate_impl'):
+                if owner != cand and only_reached_from(repo, owner, {cand}):
+                    owner = cand
+            run.violation('C12.R1', (w.fi.file, w.node.lineno, owner), '%s %s[...] (%s)' % (w.kind, w.root[1], w.root[0]), 'evaluation code stores per-build state in process-global state (%s %s): a later build in the same process sees objects (context, config, symbols) of an earlier one [%s]' % (w.root[0], w.root[1], w.text()[:80]))
     if n < 2:
         raise AnalysisError('C12.R1: shared-write inventory of the evaluation modules found %d writes' % n)
     # symbols are copied per context
@@ -59,35 +67,58 @@ def r1(repo, run):
         run.ok('C12.R1', ges, 'get_eval_symbols returns the context\'s private dict')
 
 
-def r1b(repo, run):
+ENI = {'_require_safe', '_patch_access_to_globals', 'evaluate_node', 'get_eval_symbols'}
+WNAME = 'EvalNode._globals_wrapper_name'
+
+
+def _eval_paths(repo, exc=False):
     fi = repo.func('EvalNode.ayns.on_evaluate_impl')
-    g = cfg_of(fi)
-    wname = 'EvalNode._globals_wrapper_name'
-    installs = [n for n in g.stmt_nodes() if n.kind == 'stmt' and isinstance(n.ast, ast.Assign) and isinstance(n.ast.targets[0], ast.Subscript) and norm(n.ast.targets[0].slice) == wname
-                and isinstance(n.ast.value, ast.Call) and norm(n.ast.value.func) == 'GlobalsWrapper']
-    removes = [n for n in g.stmt_nodes() if n.kind == 'stmt' and isinstance(n.ast, ast.Delete) and isinstance(n.ast.targets[0], ast.Subscript) and norm(n.ast.targets[0].slice) == wname]
-    removes += [n for n in g.stmt_nodes() if any(isinstance(c.func, ast.Attribute) and c.func.attr == 'pop' and c.args and norm(c.args[0]) == wname for c in n.calls())]
-    runs = g.find_calls(lambda c: isinstance(c.func, ast.Name) and c.func.id in ('exec', 'eval'))
-    caches = [n for n in g.stmt_nodes() if n.kind == 'stmt' and isinstance(n.ast, ast.Assign) and norm(n.ast.targets[0]).startswith('sys.modules[')]
-    if not installs or not runs:
+    return fi, tr.paths_of(repo, fi, no_inline=ENI, follow_exceptions=exc)
+
+
+def r1b(repo, run):
+    fi, paths = _eval_paths(repo)
+    n_run = n_cache = 0
+    verdicts = set()
+    for p in paths:
+        for i, e in enumerate(p.events):
+            if e.kind == 'call' and e.callee in ('exec', 'eval') and len(e.args) >= 2:
+                n_run += 1
+                G = e.args[1].text
+                inst = [x for x in p.events[:i] if x.kind == 'store' and x.target == '%s[%s]' % (G, WNAME) and x.value is not None and x.value.text.startswith('GlobalsWrapper(')]
+                removed = [x for x in p.events[:i] if (x.kind == 'store' and x.target == 'del %s[%s]' % (G, WNAME)) or (tr.is_call(x, attr='pop', recv=G) and x.args and x.args[0].text == WNAME)]
+                if not inst or (removed and tr.index_of(p, removed[-1]) > tr.index_of(p, inst[-1])):
+                    verdicts.add(('bad', 'R1b', 'user code runs on a path on which this build\'s GlobalsWrapper was not installed (a cached namespace would resolve names through an earlier build\'s context) [%s]' % tr.describe(p, 3)))
+                    continue
+                w = [x for x in p.events[:i] if x.kind == 'call' and x.callee == 'GlobalsWrapper' and x.result is not None and x.result.text == inst[-1].value.text]
+                wargs = [a.text for a in w[-1].args] if w else []
+                if not wargs or wargs[0] != G:
+                    verdicts.add(('bad', 'R2', 'the wrapper does not consult the dict the code runs in'))
+                elif 'ctx' not in wargs or 'ctx.ecfg' not in wargs:
+                    verdicts.add(('bad', 'R1b', 'the wrapper is not built from the current context (ctx, ctx.ecfg)'))
+                else:
+                    verdicts.add(('ok', 'R1b', 'a fresh GlobalsWrapper(<namespace>, ctx.ecfg, ctx, ...) for this build is installed on every path before the code runs'))
+                fresh = not G.startswith('sys.modules[')
+                if fresh:
+                    merged = any(tr.is_call(x, attr='update', recv=G) and x.args and x.args[0].text == 'ctx.get_eval_symbols()' for x in p.events[:i]) or '**ctx.get_eval_symbols()' in G
+                    if merged:
+                        verdicts.add(('ok', 'R2', 'symbols of the context are merged into a fresh namespace before the code runs'))
+                    else:
+                        verdicts.add(('bad', 'R2', 'symbols supplied to the evaluation context are not merged into the globals of the code'))
+            cached = e.kind == 'store' and e.target.startswith('sys.modules[') and not e.target.startswith('sys.modules[') is False and '.__dict__[' not in e.target and not e.target.startswith('del ')
+            if cached:
+                n_cache += 1
+                runs = [x for x in p.events[:i] if x.kind == 'call' and x.callee in ('exec', 'eval') and len(x.args) >= 2]
+                G = runs[-1].args[1].text if runs else None
+                removed = G is not None and any((x.kind == 'store' and x.target == 'del %s[%s]' % (G, WNAME)) or (tr.is_call(x, attr='pop', recv=G) and x.args and x.args[0].text == WNAME) for x in p.events[:i])
+                if removed:
+                    verdicts.add(('ok', 'R1b', 'wrapper removed from the namespace before it is cached'))
+                else:
+                    verdicts.add(('bad', 'R1b', 'the namespace is cached in sys.modules while it still contains the GlobalsWrapper of this build (context, config and node are kept alive and reused)'))
+    if not n_run:
         raise AnalysisError('EvalNode.on_evaluate_impl: wrapper installation / exec not recognised')
-    inst_ids = {n.id for n in installs}
-    IN = cfgmod.forward_must(g, lambda n, f: f | {'w'} if n.id in inst_ids else f)
-    for n, c in runs:
-        if IN[n.id] is not None and 'w' in IN[n.id]:
-            run.ok('C12.R1b', (fi.file, c.lineno, fi.qualname), unparse(c)[:60], 'a fresh GlobalsWrapper for this build is installed on every path before the code runs')
-        else:
-            run.violation('C12.R1b', fi, unparse(c), 'user code runs on a path on which this build\'s GlobalsWrapper was not installed (a cached namespace would resolve names through an earlier build\'s context)', node=c)
-    wctx = [norm(a) for a in installs[0].ast.value.args]
-    if 'ctx' not in wctx or 'ctx.ecfg' not in wctx:
-        run.violation('C12.R1b', fi, norm(installs[0].ast), 'the wrapper is not built from the current context (ctx, ctx.ecfg)')
-    rem_ids = {n.id for n in removes}
-    IN2 = cfgmod.forward_must(g, lambda n, f: f | {'r'} if n.id in rem_ids else f)
-    for n in caches:
-        if IN2[n.id] is not None and 'r' in IN2[n.id]:
-            run.ok('C12.R1b', (fi.file, n.ast.lineno, fi.qualname), norm(n.ast), 'wrapper removed from the namespace before it is cached')
-        else:
-            run.violation('C12.R1b', fi, norm(n.ast) + ' [wrapper still inside]', 'the namespace is cached in sys.modules while it still contains the GlobalsWrapper of this build (context, config and node are kept alive and reused)', node=n.ast)
+    for v in sorted(verdicts):
+        (run.ok if v[0] == 'ok' else run.violation)('C12.' + v[1], fi, 'namespace of the evaluated code', v[2])
 
 
 def r2(repo, run):
@@ -119,82 +150,63 @@ def r2(repo, run):
         run.violation('C12.R2', fi, 'fall-through', 'an unknown name does not raise NameError')
     else:
         run.ok('C12.R2', fi, 'gbls > config > builtins > NameError')
-    ev = repo.func('EvalNode.ayns.on_evaluate_impl')
-    g = cfg_of(ev)
-    upd = g.find_calls(lambda c: is_method_call(c, recv='gbls', member='update') and c.args and 'get_eval_symbols()' in norm(c.args[0]))
-    if not upd:
-        run.violation('C12.R2', ev, 'gbls.update(ctx.get_eval_symbols())', 'symbols supplied to the evaluation context are not merged into the globals of the code')
-    else:
-        run.ok('C12.R2', (ev.file, upd[0][1].lineno, ev.qualname), unparse(upd[0][1]), 'symbols visible as globals (before config entries)')
-    gw = [c for c in calls_in(ev.node) if norm(c.func) == 'GlobalsWrapper']
-    if not gw or norm(gw[0].args[0]) != 'gbls':
-        run.violation('C12.R2', ev, unparse(gw[0]) if gw else 'GlobalsWrapper(...)', 'the wrapper does not consult the dict the code runs in')
 
 
 def r3(repo, run):
-    fi = repo.func('EvalNode.ayns.on_evaluate_impl')
-    sinks = [c for c in calls_in(fi.node) if isinstance(c.func, ast.Name) and c.func.id in ('compile', 'exec', 'eval')]
+    fi, paths = _eval_paths(repo, exc=True)
+    sinks = {}
+    for p in paths:
+        for e in p.events:
+            if e.kind == 'call' and e.callee in ('compile', 'exec', 'eval'):
+                sinks.setdefault(id(e.node), e)
     if len(sinks) < 3:
         raise AnalysisError('EvalNode: compile/exec/eval calls not found')
-    tries = [s for s in walk_no_nested(fi.node) if isinstance(s, ast.Try)]
-    for c in sinks:
-        tr = [t for t in tries if any(x is c for b in t.body for x in ast.walk(b))]
-        ok = False
-        if tr:
-            for h in tr[0].handlers:
-                if h.type is not None and norm(h.type) in ('Exception', 'BaseException') and h.name:
-                    rz = [r for r in h.body if isinstance(r, ast.Raise)]
-                    if rz and rz[-1].exc is not None and 'EvalError' in norm(rz[-1].exc) and rz[-1].cause is not None and norm(rz[-1].cause) == h.name:
-                        ok = True
-        if ok:
-            run.ok('C12.R3', (fi.file, c.lineno, fi.qualname), unparse(c)[:70], 'except Exception as e: raise EvalError(...) from e')
-        else:
-            run.violation('C12.R3', fi, unparse(c)[:100], 'an exception raised by user code here is not converted into EvalError carrying the original exception as cause', node=c)
-
-
-def _maybe_none(fi, e, depth=3):
-    """can the expression be None given how its names are defined? (self._source_file is Optional by construction)"""
-    s = norm(e)
-    if s in ('self._source_file', 'self.ayns.source_file'):
-        return True
-    if isinstance(e, ast.Name) and depth:
-        ds = name_defs(fi, e.id)
-        if not ds:
-            return False
-        return any(_maybe_none(fi, d[1], depth - 1) for d in ds)
-    if isinstance(e, ast.IfExp):
-        t = norm(e.test)
-        if t.endswith('is not None') and norm(e.body) == t[:-len(' is not None')]:
-            return _maybe_none(fi, e.orelse, depth)
-        if t.endswith('is None') and norm(e.orelse) == t[:-len(' is None')]:
-            return _maybe_none(fi, e.body, depth)
-        return _maybe_none(fi, e.body, depth) or _maybe_none(fi, e.orelse, depth)
-    if isinstance(e, ast.BoolOp) and isinstance(e.op, ast.Or):
-        return _maybe_none(fi, e.values[-1], depth)
-    if isinstance(e, ast.Constant):
-        return e.value is None
-    return False
+    covered = set()
+    bad = None
+    for p in paths:
+        exc = [t for t, pol in p.facts if t.startswith('exception:') and pol]
+        if not exc:
+            continue
+        for i, e in enumerate(p.events):
+            if e.kind == 'exc':
+                for x in p.events[:i]:
+                    if x.kind == 'call' and id(x.node) in sinks:
+                        covered.add(id(x.node))
+        if any(('Exception' in t.split(':', 1)[1] and 'EvalError' not in t) or 'BaseException' in t for t in exc):
+            fin = tr.final_event(p)
+            if p.status != 'raise' or fin is None or not fin.value.text.startswith(('EvalError(', 'errors.EvalError(')) or fin.target != 'caught_exception':
+                bad = (fin, 'an exception raised by user code is not converted into EvalError carrying the original exception as cause (handler ends with %s%s)' % (p.status, (' ' + fin.value.text[:40] + (' from ' + str(fin.target) if fin.target else ' without cause')) if fin is not None and fin.value is not None else ''))
+    for k, e in sinks.items():
+        if k not in covered:
+            run.violation('C12.R3', tr.where(fi, e), e.callee + '(...)', 'an exception raised by user code here is not inside the try block whose handler converts it into EvalError')
+        elif bad is None:
+            run.ok('C12.R3', tr.where(fi, e), e.callee + '(...)', 'except Exception as e: raise EvalError(...) from e')
+    if bad is not None:
+        run.violation('C12.R3', tr.where(fi, bad[0]), 'catch-all handler', bad[1])
 
 
 def r4(repo, run):
-    fi = repo.func('EvalNode.ayns.on_evaluate_impl')
+    fi, paths = _eval_paths(repo)
     n = 0
-    for c in calls_in(fi.node):
-        if isinstance(c.func, ast.Name) and c.func.id == 'compile' and len(c.args) >= 2:
-            n += 1
-            g = cfg_of(fi)
-            node = find_stmt_node(g, c)
-            guarded = node is not None and ('%s is None' % norm(c.args[1]), False) in facts_at(g, node)
-            if _maybe_none(fi, c.args[1]) and not guarded:
-                run.violation('C12.R4', fi, unparse(c), 'compile() is given %s as file name, which is None for nodes parsed from a string without a file name: every !eval / f-string in an inline source fails with TypeError' % norm(c.args[1]), node=c)
-            else:
-                run.ok('C12.R4', (fi.file, c.lineno, fi.qualname), unparse(c), 'file name cannot be None')
+    verdicts = {}
+    for p in paths:
+        for e in p.events:
+            if e.kind == 'call' and e.callee == 'compile' and len(e.args) >= 2:
+                n += 1
+                f = e.args[1]
+                if isinstance(f.ast, ast.Constant) and isinstance(f.const, str):
+                    verdicts.setdefault((id(e.node), 'ok'), (e, 'constant placeholder file name'))
+                elif f.text in ('self._source_file', 'self.ayns.source_file'):
+                    if (f.text + ' is None', False) in e.facts:
+                        verdicts.setdefault((id(e.node), 'ok'), (e, 'file name cannot be None on this path'))
+                    else:
+                        verdicts.setdefault((id(e.node), 'bad'), (e, 'compile() is given %s as file name, which is None for nodes parsed from a string without a file name: every !eval / f-string in an inline source fails with TypeError' % f.text))
+                else:
+                    verdicts.setdefault((id(e.node), 'ok'), (e, 'file name %s (not the optional source file)' % f.text[:40]))
     if n < 2:
         raise AnalysisError('EvalNode: compile calls not found')
-    init = repo.func('ConfigNode.__init__')
-    sf = [s for s in walk_no_nested(init.node) if isinstance(s, ast.Assign) and norm(s.targets[0]) == 'self._source_file']
-    if not sf or 'None' not in norm(sf[0].value):
-        run.info('C12.R4', init, norm(sf[0]) if sf else '_source_file', 'source file no longer optional by construction')
+    for (k, v), (e, why) in verdicts.items():
+        (run.ok if v == 'ok' else run.violation)('C12.R4', tr.where(fi, e), 'compile(<code>, <file name>, ...)', why)
 
 
 def shifted_ops_of_interpreter():
@@ -216,115 +228,175 @@ def shifted_ops_of_interpreter():
     return out, path
 
 
-def _is_shifted_here(e):
-    """does the operand expression shift the name index on the interpreter running this check?"""
-    import sys
-    if isinstance(e, ast.IfExp) and isinstance(e.test, ast.Call) and norm(e.test.func) == 'python_is_at_least' and all(isinstance(a, ast.Constant) for a in e.test.args):
-        ver = tuple(a.value for a in e.test.args)
-        return _is_shifted_here(e.body if tuple(sys.version_info[:2]) >= ver else e.orelse)
-    return any(isinstance(x, ast.BinOp) and (isinstance(x.op, ast.LShift) or (isinstance(x.op, ast.Mult) and norm(x.right) == '2')) for x in ast.walk(e))
+def _decode_loop(fi):
+    loops = [s for s in fi.node.body if isinstance(s, (ast.While, ast.For)) and 'co_code' in norm(s)]
+    if not loops:
+        raise AnalysisError('_patch_access_to_globals: instruction loop over co_code not found')
+    return loops[0]
+
+
+def _patcher_paths(repo, upto):
+    fi = repo.func('EvalNode._patch_access_to_globals')
+    return fi, Tracer(repo, follow_exceptions=False, max_paths=20000).trace(fi, upto=upto)
+
+
+def _emissions(p):
+    """(what, operand Val-ast, event): instruction words appended on this path: what = 'orig' (the original opcode byte
+    re-emitted with a new operand) or the name of the opcode taken from dis.opmap"""
+    out = []
+    for e in p.events:
+        if e.kind != 'call' or e.attr != 'append' or len(e.args) != 1:
+            continue
+        a = e.args[0].ast
+        if not (isinstance(a, ast.BinOp) and isinstance(a.op, ast.Add) and isinstance(a.right, ast.Call) and isinstance(a.right.func, ast.Attribute) and a.right.func.attr == 'to_bytes'):
+            continue
+        operand = a.right.func.value
+        left = a.left
+        if isinstance(left, ast.Call) and isinstance(left.func, ast.Attribute) and left.func.attr == 'to_bytes' and isinstance(left.func.value, ast.Subscript) and norm(left.func.value.value) == 'dis.opmap' \
+                and isinstance(left.func.value.slice, ast.Constant):
+            out.append((left.func.value.slice.value, operand, e))
+        elif isinstance(left, ast.Subscript) and norm(left.value).endswith('.co_code'):
+            out.append(('orig', operand, e))
+    return out
 
 
 def r5(repo, run):
+    """operand encoding evaluated: for every opcode name the patcher decodes and every small operand byte, the decode
+    loop is interpreted path by path with the interpreter facts (python_is_at_least, dis.opname) fixed; the name index it reads and the
+    operands it emits are computed and compared with the encoding dis.py of this interpreter documents"""
+    import sys
     shifted, path = shifted_ops_of_interpreter()
-    if 'LOAD_GLOBAL' not in shifted and tuple(__import__('sys').version_info[:2]) >= (3, 11):
+    if 'LOAD_GLOBAL' not in shifted and tuple(sys.version_info[:2]) >= (3, 11):
         raise AnalysisError('dis.py of this interpreter: shifted-operand branches not recognised (%s)' % path)
-    fi = repo.func('EvalNode._patch_access_to_globals')
+    loop = _decode_loop(repo.func('EvalNode._patch_access_to_globals'))
+    fi, paths = _patcher_paths(repo, loop)
     run.table('C12.R5', len(shifted), 'opcodes with shifted name operand per %s: %s' % (os.path.basename(path), shifted))
-    # decoded opcodes
-    decoded = set()
-    for s in ast.walk(fi.node):
-        if isinstance(s, ast.Compare) and norm(s.left) == 'dis.opname[op]' and isinstance(s.ops[0], ast.In) and isinstance(s.comparators[0], (ast.List, ast.Tuple, ast.Set)):
-            decoded |= {e.value for e in s.comparators[0].elts if isinstance(e, ast.Constant)}
-    if not decoded:
-        raise AnalysisError('_patch_access_to_globals: decoded opcode list not recognised')
-    sh = [s for s in walk_no_nested(fi.node) if isinstance(s, ast.Assign) and norm(s.targets[0]) == 'arg_shifted']
-    shifted_decoded = set()
-    if sh:
-        for cmp_ in ast.walk(sh[0].value):
-            if isinstance(cmp_, ast.Compare) and norm(cmp_.left) == 'dis.opname[op]':
-                c0 = cmp_.comparators[0]
-                if isinstance(cmp_.ops[0], ast.Eq) and isinstance(c0, ast.Constant):
-                    shifted_decoded.add(c0.value)
-                if isinstance(cmp_.ops[0], ast.In) and isinstance(c0, (ast.List, ast.Tuple, ast.Set)):
-                    shifted_decoded |= {e.value for e in c0.elts if isinstance(e, ast.Constant)}
-    for op in sorted(decoded):
-        need = op in shifted
-        has = op in shifted_decoded
-        if need and not has:
-            run.violation('C12.R5', fi, 'decoding of %s' % op, 'on this interpreter the name operand of %s is stored shifted (dis.py: arg >> %d) but the patcher reads it unshifted' % (op, shifted[op]))
-        else:
-            run.ok('C12.R5', fi, 'decoding of %s' % op, 'shifted' if need else 'plain operand on this interpreter')
-    # emitted opcodes
-    n = 0
-    for b in ast.walk(fi.node):
-        if isinstance(b, ast.BinOp) and isinstance(b.op, ast.Add) and isinstance(b.left, ast.Call) and norm(b.left.func).startswith("dis.opmap[") and norm(b.left.func).endswith('.to_bytes'):
-            opn = b.left.func.value.slice.value if isinstance(b.left.func.value.slice, ast.Constant) else None
-            operand = b.right.func.value if isinstance(b.right, ast.Call) and isinstance(b.right.func, ast.Attribute) else None
-            n += 1
-            if opn in shifted:
-                txt = norm(operand) if operand is not None else ''
-                shifted_expr = '<<' in txt or '* 2' in txt or '*2' in txt
-                if operand is not None and isinstance(operand, ast.Name):
-                    ds = name_defs(fi, operand.id)
-                    if len(ds) == 1:
-                        shifted_expr = _is_shifted_here(ds[0][1])
-                        txt = '%s = %s' % (operand.id, norm(ds[0][1]))
-                if not shifted_expr:
-                    run.violation('C12.R5', fi, 'emission of %s with operand %s' % (opn, txt), 'on this interpreter (%s) the name operand of %s must be shifted left by %d; the patcher emits the raw name index, so only name index 0 resolves correctly (`a + b` with two config names crashes the interpreter)' % (os.path.basename(path), opn, shifted[opn]), node=b)
-                else:
-                    run.ok('C12.R5', (fi.file, b.lineno, fi.qualname), 'emission of %s with operand %s' % (opn, txt), 'shifted')
-            else:
-                run.ok('C12.R5', (fi.file, b.lineno, fi.qualname), 'emission of %s' % opn, 'plain operand on this interpreter')
-    if n < 1:
-        raise AnalysisError('_patch_access_to_globals: emitted LOAD_ATTR not recognised')
+    # the opcode / operand expressions of the first instruction
+    optexts = set()
+    for p in paths:
+        for e in p.events:
+            if e.kind == 'subscr' and e.callee == 'dis.opname':
+                optexts.add(e.value.text)
+    if len(optexts) != 1:
+        raise AnalysisError('_patch_access_to_globals: opcode lookup dis.opname[<op>] not recognised (%s)' % sorted(optexts)[:3])
+    OP = 'dis.opname[%s]' % optexts.pop()
+    base = {}
+    for v in ((3, 8), (3, 9), (3, 10), (3, 11), (3, 12), (3, 13), (3, 14)):
+        base['python_is_at_least(%d, %d)' % v] = tuple(sys.version_info[:2]) >= v
+    W = 5
+    bad = []
+    rows = 0
+    decoded_ops = []
+    for opname in ('LOAD_GLOBAL', 'LOAD_NAME', 'LOAD_FAST', 'STORE_NAME'):
+        s_op = shifted.get(opname, 0)
+        seen_redirect = False
+        for b in (0, 1, 2, 3, 6, 7):
+            sub = dict(base)
+            sub[OP] = opname
+            feas = [p for p in paths if tr.feasible(p, sub)[0]]
+            if not feas:
+                raise AnalysisError('_patch_access_to_globals: no feasible path for opcode %s' % opname)
+            for p in feas:
+                em = _emissions(p)
+                redirect = [x for x in em if x[0] == 'LOAD_ATTR']
+                if not redirect:
+                    continue
+                seen_redirect = True
+                rows += 1
+                # operand byte of this instruction: the co_code subscript that is not the opcode itself
+                reads = [e for e in p.events if e.kind == 'subscr' and e.callee.endswith('.co_code') and e.result is not None and 'dis.opname[%s]' % e.result.text != OP and not isinstance(e.value.ast, ast.Slice)]
+                if not reads:
+                    raise AnalysisError('_patch_access_to_globals: operand read not recognised')
+                val = dict(sub)
+                val[reads[0].result.text] = b
+                names = [e for e in p.events if e.kind == 'subscr' and e.callee.endswith('.co_names')]
+                widx = [e for e in p.events if e.kind == 'call' and e.attr == 'index' and e.args and e.args[0].text == WNAME]
+                for e in widx:
+                    val[e.result.text] = W
+                try:
+                    idx = tr._ev_const(names[0].value.ast, val) if names else None
+                    attr_operand = tr._ev_const(redirect[0][1], val)
+                    orig = [x for x in em if x[0] == 'orig']
+                    orig_operand = tr._ev_const(orig[0][1], val) if orig and widx else None
+                except tr._Unknown:
+                    raise AnalysisError('_patch_access_to_globals: operand expressions not evaluable for %s' % opname)
+                want_idx = b >> s_op
+                s_attr = shifted.get('LOAD_ATTR', 0)
+                if idx != want_idx:
+                    bad.append('on this interpreter the operand %d of %s denotes name index %d (dis.py: arg >> %d) but the patcher reads name %r' % (b, opname, want_idx, s_op, idx))
+                elif attr_operand != (want_idx << s_attr):
+                    bad.append('on this interpreter (%s) the name operand of LOAD_ATTR must be the name index shifted left by %d: for %s with operand %d (name %d) the patcher emits LOAD_ATTR %r, expected %d (`a + b` with two config names resolves the wrong attribute / crashes)' % (os.path.basename(path), s_attr, opname, b, want_idx, attr_operand, want_idx << s_attr))
+                elif orig_operand is not None and orig_operand != ((W << s_op) | (b & ((1 << s_op) - 1))):
+                    bad.append('the redirected %s is re-emitted with operand %r; expected the wrapper name index %d shifted by %d with the flag bits of the original operand (%d)' % (opname, orig_operand, W, s_op, (W << s_op) | (b & ((1 << s_op) - 1))))
+        if seen_redirect:
+            decoded_ops.append(opname)
+    if 'LOAD_GLOBAL' not in decoded_ops or 'LOAD_NAME' not in decoded_ops:
+        raise AnalysisError('_patch_access_to_globals: redirection of LOAD_GLOBAL / LOAD_NAME not recognised (redirected: %s)' % decoded_ops)
+    if bad:
+        for m in sorted(set(bad))[:3]:
+            run.violation('C12.R5', fi, 'operand encoding of the redirected name load', m)
+    else:
+        run.ok('C12.R5', fi, 'operand encoding evaluated for %s x 6 operand bytes (%d redirecting paths)' % (decoded_ops, rows), 'name index read and LOAD_ATTR / re-emitted operands agree with %s' % os.path.basename(path))
 
 
 def r6(repo, run):
-    fi = repo.func('EvalNode._patch_access_to_globals')
-    rec = [s for s in walk_no_nested(fi.node) if isinstance(s, ast.Assign) and norm(s.targets[0]) == 'new_consts']
-    if not rec or 'code.co_consts' not in norm(rec[0].value) or 'maybe_patch' not in norm(rec[0].value):
-        raise AnalysisError('_patch_access_to_globals: recursion over co_consts not recognised')
-    early = [s for s in walk_no_nested(fi.node) if isinstance(s, ast.Return) and s.lineno < rec[0].lineno]
-    mp = fi.nested().get('maybe_patch')
-    rec_call = mp is not None and any(norm(c.func) == 'EvalNode._patch_access_to_globals' for c in calls_in(mp.node))
-    if early:
-        run.violation('C12.R6', fi, norm(early[0]), 'the patcher returns before it has recursed into nested code objects: names used inside nested functions / lambdas / comprehensions of such a code object are not redirected to the config', node=early[0])
-    elif not rec_call:
-        run.violation('C12.R6', fi, 'maybe_patch', 'nested code objects are not patched recursively')
-    else:
-        run.ok('C12.R6', (fi.file, rec[0].lineno, fi.qualname), norm(rec[0]), 'every nested code object is patched first; no earlier return')
-    # the "nothing to do" return must consider nested changes
-    nd = [s for s in walk_no_nested(fi.node) if isinstance(s, ast.If) and norm(s.test) == 'not done_something']
-    if not nd or rec[0].lineno > nd[0].lineno:
-        run.violation('C12.R6', fi, 'if not done_something', 'the unchanged-code shortcut does not account for patched nested code objects')
+    loop = _decode_loop(repo.func('EvalNode._patch_access_to_globals'))
+    fi, paths = _patcher_paths(repo, loop)
+    rec_seen = False
+    for p in paths:
+        rec = [e for e in p.events if e.kind == 'call' and e.callee == 'EvalNode._patch_access_to_globals' and e.args and 'co_consts' in e.args[0].text]
+        rec_seen = rec_seen or bool(rec)
+        if p.status == 'return':
+            fin = tr.final_event(p)
+            run.violation('C12.R6', tr.where(fi, fin), 'early return before / inside the instruction loop', 'the patcher returns before it has rewritten the instructions%s: names used inside nested functions / lambdas / comprehensions of such a code object are not redirected to the config [%s]' % ('' if rec else ' and before it has recursed into nested code objects', tr.describe(p, 4)))
+            return
+    if not rec_seen:
+        run.violation('C12.R6', fi, 'nested code objects', 'nested code objects (co_consts) are not patched recursively')
+        return
+    run.ok('C12.R6', fi, 'every nested code object in co_consts is patched first; no return before the instruction loop completes')
+    # the "nothing to do" shortcut after the loop must consider nested changes
+    after = [s_ for s_ in fi.node.body if s_.lineno > loop.lineno and isinstance(s_, ast.If) and any(isinstance(x, ast.Return) for x in ast.walk(s_))]
+    if not after:
+        run.info('C12.R6', fi, 'unchanged-code shortcut', 'no shortcut return after the loop')
+        return
+    _, paths2 = _patcher_paths(repo, after[0])
+    for p in paths2:
+        if p.status != 'return' or p.ret is None or p.ret.elems is None or len(p.ret.elems) != 2:
+            continue
+        nested_changed = any(pol and t.startswith('EvalNode._patch_access_to_globals(') and t.endswith('[1]') for t, pol in p.facts)
+        redirected = any(x[0] == 'LOAD_ATTR' for x in _emissions(p))
+        if (nested_changed or redirected) and p.ret.elems[1].const is False:
+            run.violation('C12.R6', tr.where(fi, tr.final_event(p)), 'unchanged-code shortcut', 'the unchanged-code shortcut does not account for %s: the original code object is returned' % ('patched nested code objects' if nested_changed else 'redirected instructions'))
+            return
+    run.ok('C12.R6', fi, 'unchanged-code shortcut taken only when neither this code object nor a nested one was patched')
 
 
 def r7r8(repo, run):
     fi = repo.func('EvalNode._patch_access_to_globals')
-    inserts = any(isinstance(c.func, ast.Attribute) and c.func.attr == 'append' and norm(c.func.value) == 'new_bytecode' for c in calls_in(fi.node))
+    inserts = any(isinstance(x, ast.Subscript) and norm(x.value) == 'dis.opmap' for x in ast.walk(fi.node))
     n = 0
     for c in calls_in(fi.node):
-        if norm(c.func) == 'types.CodeType':
-            for a in c.args:
-                if norm(a) == 'code.co_exceptiontable':
-                    n += 1
-                    if inserts:
-                        run.violation('C12.R7', fi, 'types.CodeType(..., code.co_exceptiontable, ...)', 'the exception table (byte offsets of try/with ranges and handlers) of the original code is attached unchanged to bytecode into which instructions were inserted: a try/with block after a redirected name load no longer covers its body (an exception raised there is not caught)', node=c)
-                    else:
-                        run.ok('C12.R7', (fi.file, c.lineno, fi.qualname), 'exception table kept (no instruction inserted)')
+        if norm(c.func) == 'types.CodeType' or (isinstance(c.func, ast.Attribute) and c.func.attr == 'replace' and any(k.arg == 'co_code' for k in c.keywords)):
+            n += 1
+            verbatim = [a for a in list(c.args) + [k.value for k in c.keywords] if isinstance(a, ast.Attribute) and a.attr == 'co_exceptiontable']
+            replaced = isinstance(c.func, ast.Attribute) and c.func.attr == 'replace' and not any(k.arg == 'co_exceptiontable' for k in c.keywords)
+            if (verbatim or replaced) and inserts:
+                run.violation('C12.R7', fi, 'types.CodeType(..., code.co_exceptiontable, ...)', 'the exception table (byte offsets of try/with ranges and handlers) of the original code is attached unchanged to bytecode into which instructions were inserted: a try/with block after a redirected name load no longer covers its body (an exception raised there is not caught)', node=c)
+            else:
+                run.ok('C12.R7', (fi.file, c.lineno, fi.qualname), 'exception table is not passed verbatim', 'recomputed or no instruction inserted')
     if n == 0:
-        tables = [c for c in calls_in(fi.node) if norm(c.func) == 'types.CodeType']
-        if not tables:
-            raise AnalysisError('_patch_access_to_globals: types.CodeType(...) not found')
-        run.ok('C12.R7', fi, 'exception table is not passed verbatim', 'recomputed or not applicable')
+        raise AnalysisError('_patch_access_to_globals: construction of the new code object not found')
     src = norm(fi.node)
-    single_read = [x for x in ast.walk(fi.node) if isinstance(x, ast.Subscript) and norm(x) in ('code.co_code[i + 1]', 'code.co_code[i+1]')]
-    single_write = [c for c in calls_in(fi.node) if isinstance(c.func, ast.Attribute) and c.func.attr == 'to_bytes' and c.args and norm(c.args[0]) == '1' and norm(c.func.value) in ('new_arg', 'attr_arg', 'arg', 'new_loc_rel', 'new_loc_abs')]
+    # single-byte operand accesses, whatever the variables are called: <x>.co_code[<i> + 1] reads and <operand>.to_bytes(1, ...) writes
+    # whose receiver is not an opcode number
+    single_read = [x for x in ast.walk(fi.node) if isinstance(x, ast.Subscript) and norm(x.value).endswith('.co_code') and isinstance(x.slice, ast.BinOp) and isinstance(x.slice.op, ast.Add)
+                   and isinstance(x.slice.right, ast.Constant) and x.slice.right.value == 1]
+    single_write = [c for c in calls_in(fi.node) if isinstance(c.func, ast.Attribute) and c.func.attr == 'to_bytes' and c.args and norm(c.args[0]) == '1'
+                    and not (isinstance(c.func.value, ast.Subscript) and norm(c.func.value.value) == 'dis.opmap') and not isinstance(c.func.value, ast.Constant)]
     handles_ext = 'EXTENDED_ARG' in src
     if (single_read or single_write) and not handles_ext:
-        run.violation('C12.R8', fi, 'single-byte operands (%d reads, %d writes) without EXTENDED_ARG' % (len(single_read), len(single_write)),
-                      'operands are read from / written to one byte and EXTENDED_ARG prefixes are ignored: code whose (shifted) name index or jump distance needs more than 8 bits cannot be translated (OverflowError / wrong name)', node=(single_read or single_write)[0])
+        run.violation('C12.R8', fi, 'single-byte operands without EXTENDED_ARG',
+                      'operands are read from / written to one byte (%d reads, %d writes) and EXTENDED_ARG prefixes are ignored: code whose (shifted) name index or jump distance needs more than 8 bits cannot be translated (OverflowError / wrong name)' % (len(single_read), len(single_write)), node=(single_read or single_write)[0])
     else:
         run.ok('C12.R8', fi, 'operand width', 'EXTENDED_ARG handled or no single-byte access')
 
